@@ -416,6 +416,7 @@ pub fn run(tier: &str, seed: u64) -> i32 {
                                     detail: f["detail"].as_str().unwrap_or("").to_string(),
                                     derivation: format!("{} #{}", fams[fi].name, f["index"]),
                                     extra: Value::Null,
+                                    count: 1,
                                 });
                             }
                             done_per_family[fi].fetch_add(b - a, Ordering::Relaxed);
@@ -437,6 +438,7 @@ pub fn run(tier: &str, seed: u64) -> i32 {
                                     detail,
                                     derivation: format!("{} #{a}", fams[fi].name),
                                     extra: Value::Null,
+                                    count: 1,
                                 });
                                 totals.lock().unwrap().0 += 1;
                                 done_per_family[fi].fetch_add(1, Ordering::Relaxed);
@@ -533,6 +535,7 @@ pub fn run(tier: &str, seed: u64) -> i32 {
                         detail: format!("ladder {name} at depth {d} (parser alone succeeds in the same 8 MiB stack): {detail}"),
                         derivation: format!("ladder={name} depth={d}"),
                         extra: json!({"ladder": fi, "depth": d}),
+                        count: 1,
                     });
                     break;
                 }
